@@ -34,6 +34,10 @@ func genC06(g gen.G) C06Case {
 		l.Ext = g.Chance(40)
 		return C06Case{Limit: &l}
 	}
+	if g.Chance(20) {
+		// a world in which references resolve: reference candidates exist at most value positions
+		return C06Case{World: g.RefWorld(1, false)}
+	}
 	o := gen.WorldOpts{
 		Schema:   gen.SchemaOpts{MaxDepth: 2},
 		Cfg:      gen.CfgOpts{Violations: 6, Layout: true, HalfTyped: 10},
